@@ -7,15 +7,17 @@ ROOT = os.path.dirname(os.path.dirname(os.path.abspath(__file__)))
 
 SPECS = {
     "C01": {
-        "corr": ["RGA", "ERHT", "Proto"],
+        "corr": ["RGA", "ERHT", "Text", "Proto"],
         "engines": [
             {"name": "hist", "tag": "c01", "extra": "prop=C01", "n": {"quick": 700, "thorough": 12000}},
             {"name": "rga", "n": {"quick": 500, "thorough": 6000}},
             {"name": "erht", "n": {"quick": 500, "thorough": 6000}},
+            {"name": "textrga", "n": {"quick": 150, "thorough": 2500}, "seed_off": 3},
         ],
-        "explanation": "Generic convergence theorem (commutation of concurrent operations => all causal delivery orders agree), commutation proved for counters and for array inserts on the RGAList model; delivery discipline proved in C04. The structure models (RGAList incl. move/set/purge, ElementRHT, Counter) are compared with the real structures on random call sequences; the convergence oracle runs on real multi-client histories (2-5 clients, all flavors, push-only syncs).",
+        "explanation": "Generic convergence theorem (commutation of concurrent operations => all causal delivery orders agree); commutation proved for counters, for array inserts on the RGAList model, for batches of object Sets and Removes (any delivery order) and for pairs of concurrent text edits on the character-level model of RGATreeSplit.edit; delivery discipline proved in C04. The structure models (RGAList incl. move/set/purge, ElementRHT, Counter, TextRGA) are compared with the real structures on random call sequences (text: 2-3 replicas of crdt.Text with causal delivery, the complete node list after every execution); the convergence oracle runs on real multi-client histories (2-5 clients, all flavors, push-only syncs).",
         "assumptions": [
-            "PARTIAL: object members - proved for concurrent Sets in any number and any delivery order (C01_object_sets_converge); commutation premises for object removes, array move/delete/set, text and tree are not proved; those clauses rest on the structure correspondence and on the convergence oracle",
+            "PARTIAL: proved - object members (batches of Sets and Removes, any order), text (pairs of concurrent edits; honesty preserved), counters, array inserts; not proved - array move/delete/set, text styles and n-ary text batches, tree; those clauses rest on the structure correspondence and on the convergence oracle",
+            "text model: characters instead of runs (the harness expands runs); styles, undo restore spans, GC and the index trees are not modelled",
             "Root/operation glue (operations.Execute, json proxies) is exercised only by the history oracle, not modelled",
         ],
     },
